@@ -189,11 +189,28 @@ func c17Resize(c *core.Ctx) {
 	var readStmt, writeStmt *ast.AssignStmt
 	var oldID, newID *ast.Ident
 	nRead, nWrite := 0, 0
+	atomicRMW := false
 	for _, g := range bind.funcs {
 		ast.Inspect(g.Body, func(n ast.Node) bool {
 			as, ok := n.(*ast.AssignStmt)
 			if !ok {
 				return true
+			}
+			// old := atomic.SwapInt64(&s.capacity, new): the read and the store are ONE atomic operation,
+			// i.e. a critical section of their own (no mutex needed)
+			if len(as.Lhs) == 1 && len(as.Rhs) == 1 {
+				if call, ok := ast.Unparen(as.Rhs[0]).(*ast.CallExpr); ok && len(call.Args) == 2 {
+					if fo := c17CalleeFunc(f, call); fo != nil && fo.Pkg() != nil && fo.Pkg().Path() == "sync/atomic" && (fo.Name() == "SwapInt64" || fo.Name() == "SwapUint64") {
+						if u, ok := ast.Unparen(call.Args[0]).(*ast.UnaryExpr); ok && u.Op == token.AND && c17Field(f, u.X) == capF {
+							nRead++
+							nWrite++
+							readStmt, writeStmt, atomicRMW = as, as, true
+							oldID, _ = as.Lhs[0].(*ast.Ident)
+							newID, _ = c17StripConv(f, call.Args[1]).(*ast.Ident)
+							return true
+						}
+					}
+				}
 			}
 			for i, l := range as.Lhs {
 				if c17Field(f, l) == capF {
@@ -450,6 +467,14 @@ func c17Resize(c *core.Ctx) {
 				}
 				as, ok := n.(*ast.AssignStmt)
 				if !ok {
+					return
+				}
+				if as == readStmt && atomicRMW {
+					// one atomic swap: read and store cannot be separated
+					sawRead++
+					sawWrite++
+					st.Set(evRead, flow.True)
+					st.Set(evWrote, flow.True)
 					return
 				}
 				if as == readStmt {
